@@ -168,6 +168,24 @@ def tree_digest():
     return h.hexdigest()
 
 
+def snapshot_tree(root):
+    """A verbatim copy of the tree under test taken when the check starts (src/ and default_settings/ copied, the
+    prebuilt grammars and corpora linked). Every zygote and every true CLI run of this check invocation uses the copy,
+    so a commit landing in /repo while the check runs cannot make two runs of one pair execute different code."""
+    snap = os.path.join(root, "tree")
+    os.makedirs(snap)
+    shutil.copytree(os.path.join(common.REPO, "src"), os.path.join(snap, "src"), symlinks=True,
+                    ignore=shutil.ignore_patterns("__pycache__", "*.pyc"))
+    ds = os.path.join(common.REPO, "default_settings")
+    if os.path.isdir(ds):
+        shutil.copytree(ds, os.path.join(snap, "default_settings"), symlinks=True)
+    for x in ("lib", "tests", "docs"):
+        p = os.path.join(common.REPO, x)
+        if os.path.exists(p):
+            os.symlink(os.path.realpath(p), os.path.join(snap, x))
+    return snap
+
+
 def order_sensitive_dir():
     """A directory on a file system whose listing order follows file creation order (needed for the
     file-creation-order dimension; ext4 lists by name hash whatever the creation order). None if there is none."""
@@ -342,7 +360,7 @@ def build_plan(projs, seeds, tier, rng, root, tmpfs_root, timeout, probe=None):
     return plan
 
 
-def run_workers(plan, root, deadline_s, chk, children=CHILDREN_PER_WORKER, tag=""):
+def run_workers(plan, root, deadline_s, chk, children=CHILDREN_PER_WORKER, tag="", tree=None):
     """Start one seed worker per hash seed; -> {job id: result entry}"""
     procs = []
     for s, jobs in plan.jobs.items():
@@ -353,7 +371,7 @@ def run_workers(plan, root, deadline_s, chk, children=CHILDREN_PER_WORKER, tag="
         env = dict(os.environ)
         env["PYTHONHASHSEED"] = str(s)
         env["VERIF_SCRATCH"] = root
-        env["LIAN_REPO"] = common.REPO
+        env["LIAN_REPO"] = tree or common.REPO
         env["PYTHONDONTWRITEBYTECODE"] = "1"
         env["PYTHONWARNINGS"] = "ignore"
         log = open(os.path.join(root, f"worker{tag}_s{s}.log"), "w")
@@ -541,7 +559,7 @@ def replay(chk, case):
         ids.append(plan.job(proj, spec["seed"], v if side == "a" or v != case["a"]["variant"] or spec["seed"] != case["a"]["seed"] else v + "-again",
                             kind=spec["kind"], pre=pre, **kw))
     pair = (case["dimension"], proj["name"], ids[0], ids[1], case["level"], case["detail"])
-    results = run_workers(plan, root, 1500, chk)
+    results = run_workers(plan, root, 1500, chk, tree=snapshot_tree(root))
     stats = new_stats()
     res = judge_pair(chk, plan, results, pair, by, stats)
     chk.evaluated(2)
@@ -583,6 +601,12 @@ def main():
     os.makedirs(root, exist_ok=True)
     tmpfs_root = order_sensitive_dir()
     digest_at_start = tree_digest()
+    tree = snapshot_tree(root)
+    if tree_digest() != digest_at_start:        # a commit landed while copying: take the copy again
+        shutil.rmtree(tree)
+        digest_at_start = tree_digest()
+        tree = snapshot_tree(root)
+    chk.extra["tree_under_test"] = {"repo": common.REPO, "sha256_of_src_at_start": digest_at_start}
     random_seed = int.from_bytes(os.urandom(4), "big") % 4294967296
     while random_seed in FIXED_SEEDS:
         random_seed += 7
@@ -593,7 +617,7 @@ def main():
     skipped, results, probe = {}, {}, None
     if thorough:
         probe = probe_plan(projs, seeds[0], root, tmpfs_root, 600)
-        results.update(run_workers(probe, root, 1200, chk, children=14, tag="_probe"))
+        results.update(run_workers(probe, root, 1200, chk, children=14, tag="_probe", tree=tree))
         for p in projs:
             r = results.get(f"{p['name']}|s{seeds[0]}|loc-probe")
             if r is None or r["status"] != "ok":
@@ -607,12 +631,10 @@ def main():
         chk.extra["heavy_projects(reduced plan)"] = [p["name"] for p in projs if p.get("heavy")]
     plan = build_plan([p for p in projs if p["name"] not in skipped], seeds, chk.tier, rng, root, tmpfs_root, 900 if thorough else 300, probe)
     n_jobs = sum(len(v) for v in plan.jobs.values()) + len(plan.done)
-    results.update(run_workers(plan, root, 3300 if thorough else 900, chk))
+    results.update(run_workers(plan, root, 3300 if thorough else 900, chk, tree=tree))
     chk.evaluated(len(results))
-    tree_changed = tree_digest() != digest_at_start
-    if tree_changed:
-        chk.note_inconclusive(f"the source tree {common.REPO}/src changed while the check was running (zygotes hold the old code, "
-                              "later CLI runs / workers the new one): run again on a quiet tree")
+    # all runs used the snapshot taken at start; a commit landing meanwhile is only recorded
+    chk.extra["tree_under_test"]["changed_in_repo_while_running"] = tree_digest() != digest_at_start
     slow = sorted(((r["wall"], r.get("value", {}).get("run_s") if r["status"] == "ok" else None,
                     r.get("value", {}).get("lock_wait") if r["status"] == "ok" else None, jid) for jid, r in results.items()), reverse=True)
     chk.extra["slowest_jobs(wall,run_s,lock_wait,id)"] = slow[:12]
@@ -645,8 +667,7 @@ def main():
         if dim == "cli-vs-fork":
             chk.count("true CLI runs compared with the forked run of the same job")
             for sig, desc, w in res:
-                chk.note_inconclusive(("the tree changed during the run, so " if tree_changed else "harness: ")
-                                      + "forked run and true CLI run disagree: " + desc)
+                chk.note_inconclusive("harness: forked run and true CLI run disagree: " + desc)
             continue
         if dim == "history":
             # the history step must really have happened: another project's artefacts were there before the run
@@ -663,12 +684,7 @@ def main():
         if any(r.startswith("taint/") and e["size"] > 2 for r, e in snap.items()):
             taint_nonempty.add(pname)
         for sig, desc, w in res:
-            if tree_changed:
-                # phase-0 and main-phase zygotes (and the CLI runs) may have imported different code: not a verdict
-                if len(chk.inconclusive) < 8:
-                    chk.note_inconclusive("not judged because the tree changed during the run: " + sig + ": " + desc[:300])
-            else:
-                chk.fail(sig, desc, make_case(plan, by, pair, w))
+            chk.fail(sig, desc, make_case(plan, by, pair, w))
     for key, label in (("files_compared", "artefact file pairs compared"), ("byte_identical", "artefact file pairs byte-identical"),
                        ("decoded_compared", "artefact file pairs compared at decoded level")):
         chk.count(label, sum(v for d, v in stats[key].items() if d != "cli-vs-fork"))
@@ -699,6 +715,7 @@ def main():
     chk.require("projects whose taint/ report is non-empty", 4)
     chk.require("frontends covered", 7)
     chk.assumptions += [
+        "the tree under test is copied verbatim (src/, default_settings/) when the check starts and every process of this invocation runs the copy, so that a commit landing in the repository meanwhile cannot make the two runs of a pair execute different code",
         "separate processes = one forked child per analysis from a per-hash-seed zygote (lian imported once, YAML memo); a few true CLI runs per tier check that the forked run leaves the same bytes as `python src/lian/main.py run …`",
         "the 'random' hash seed is drawn from os.urandom once per check run and passed as an explicit PYTHONHASHSEED value so that a failing pair can be replayed",
         "workspaces of different runs at the same absolute path are serialised with a lock and the previous workspace is moved away before the next run",
